@@ -26,7 +26,7 @@ BOUND = {"quick": "(a) all 2^6 orientation patterns + orders/shifts (deviation b
 ASSUMPTIONS = ["the magnitude of a row's right-hand side is compared with the library's own public total turning (its accuracy is sub-check (b))",
                "the solution clause is judged where the internal interfaces link all cells that have one into a single group",
                "tolerances: 1e-9 relative (solution vs reference), 3% (estimator), Pearson 0.9 (physics)"]
-REQUIRED_TAGS = {"all": ["rows", "cw_first_cell", "ccw_first_cell", "estimator", "solution", "cells_without_interface", "linearity", "physics_curved", "physics_straight", "disconnected_no_verdict"]}
+REQUIRED_TAGS = {"all": ["rows", "cw_first_cell", "ccw_first_cell", "estimator", "solution", "cells_without_interface", "linearity", "physics_curved", "physics_straight", "disconnected_no_verdict", "live_sequence"]}
 
 
 def analytic_side(at, cm, k):
@@ -345,6 +345,28 @@ class Solutions:
             if abs(sum(got.values())) > 1e-9 * scale:
                 viol.append({"what": "reported pressures do not sum to zero", "detail": sum(got.values())})
             sols.append({inv[c]: got[c] for c in keys})
+        # the same assignments, one after the other, on ONE live ForSys object (a user who edits tensions and repeats the
+        # pressure step): every result must equal that of the fresh object above
+        if sols and not viol and "disconnected_no_verdict" not in tags:
+            s_live, fr, info, inv, ex = pressure_rows(sub, cm, 3, {"order": order}, patterns[0])
+            for pn, tens in enumerate(patterns[:len(sols)]):
+                if pn >= 2:
+                    tens = {internal[pn - 2]: 1.0}
+                for be in fr.internal_big_edges:
+                    be.tension = float(tens.get(getattr(be, "_ii", None), 0.0))
+                _, ex = fsutil.call(s_live.build_pressure_matrix, when=0)
+                if ex is None:
+                    _, ex = fsutil.call(s_live.solve_pressure, when=0, method="lagrange_pressure")
+                if ex is not None:
+                    viol.append({"what": "repeating the pressure step on the same object raised", "detail": fsutil.exc_str(ex)})
+                    break
+                tags.append("live_sequence")
+                got = {inv[c]: float(cc.pressure) for c, cc in fr.cells.items()}
+                bad = [c for c in got if abs(got[c] - sols[pn][c]) > 1e-9 * max(1.0, abs(sols[pn][c]))]
+                if bad:
+                    viol.append({"what": "pressures after changing the tensions and repeating the pressure step on the same object differ from a fresh object with those tensions",
+                                 "detail": {"step": pn, "cells": bad[:4], "live": [got[c] for c in bad[:4]], "fresh": [sols[pn][c] for c in bad[:4]]}})
+                    break
         # linearity: pattern 0 = sum over unit responses only when all interfaces are in the basis -> use scaling + additivity of first two
         if len(sols) >= 2 and not viol and "disconnected_no_verdict" not in tags:
             tens_sum = {ii: patterns[0][ii] + patterns[1][ii] for ii in internal}
